@@ -148,6 +148,7 @@ func (c *VirtualTable) Open() (sqlite.VirtualCursor, error) {
 	return &Cursor{
 		common: common,
 		ctx:    c.module.sc.ctx,
+		keyCol: c.common.KeyCol,
 	}, nil
 }
 
@@ -170,6 +171,7 @@ func (c *VirtualTable) Destroy() error {
 type Cursor struct {
 	common *s3db.Cursor
 	ctx    context.Context
+	keyCol int
 }
 
 func (c *Cursor) Next() error {
@@ -177,6 +179,12 @@ func (c *Cursor) Next() error {
 }
 
 func (c *Cursor) Column(ctx *sqlite.VirtualTableContext, i int) error {
+	if i != c.keyCol && ctx.NoChange() {
+		// UPDATE does not assign this column: leave the result unset so
+		// that Update() sees the no-change value and skips the column,
+		// instead of re-writing the old value with the new write time
+		return nil
+	}
 	v, err := c.common.Column(i)
 	if err != nil {
 		return toSqlite(err)
